@@ -476,6 +476,17 @@ class OkImplies:
                     if s is TOP:
                         return TOP
                     return s | frozenset([("call-ok", qual(name))])
+        # a closure built in this very function and called through Fn*::call* (a helper taking `impl FnOnce` that was
+        # inlined, or an immediately used local closure): its own summary
+        if re.search(r"^std::ops::(FnOnce::call_once|FnMut::call_mut|Fn::call)$", path) and t["a"]:
+            src = [x for k, x in origins(body, t["a"][0]) if k == "agg" and x.get("ak") == "closure"]
+            if len(src) == 1:
+                cb = self.F.body(src[0]["adt"])
+                if cb is not None:
+                    s = self.summary(cb)
+                    if s is TOP:
+                        return TOP
+                    return s | frozenset([("call-ok", qual(name))])
         # a call of a local function: its own summary
         if f.get("res") and f.get("res_local"):
             cb = self.F.body(f["res"])
